@@ -93,7 +93,10 @@ func buildFixture(c *lib.Ctx, variant string) *Fixture {
 	return fx
 }
 
-func casketfile(fx *Fixture, sites []*Site) string {
+// otherRootPort > 0 adds a site whose root does NOT hold the Casketfile (a
+// subdirectory), declared before all the others or after them: which roots
+// the Casketfile is hidden in must not depend on the company a site keeps.
+func casketfile(fx *Fixture, sites []*Site, otherRootPort int, otherFirst bool) string {
 	tok := ""
 	if old := fx.Nodes["/Casketfile"]; old != nil {
 		tok = old.Token // rewritten with other ports after a bind collision
@@ -102,8 +105,20 @@ func casketfile(fx *Fixture, sites []*Site) string {
 	}
 	var b strings.Builder
 	fmt.Fprintf(&b, "# origin Casketfile of this instance, token %s\n", tok)
+	other := ""
+	if otherRootPort > 0 {
+		other = fmt.Sprintf("127.0.0.1:%d {\n\troot %s\n\tbind 127.0.0.1\n\ttls off\n}\n", otherRootPort, filepath.Join(fx.Root, "noindex"))
+	}
+	if otherFirst {
+		b.WriteString(other)
+	}
 	for _, s := range sites {
 		fmt.Fprintf(&b, "127.0.0.1:%d%s {\n\troot %s\n\tbind 127.0.0.1\n\ttls off\n", s.Port, s.Prefix, fx.Root)
+		if s.Variant == "notopindex" && s.Kind != "browse" {
+			// the hidden file named as a fallback index page: a directory request
+			// must still not hand it out
+			b.WriteString("\tindex index.html Casketfile\n")
+		}
 		switch s.Kind {
 		case "browse":
 			b.WriteString("\tbrowse /\n")
@@ -111,6 +126,9 @@ func casketfile(fx *Fixture, sites []*Site) string {
 			b.WriteString("\tbrowse / {\n\t\tservearchive zip tar tar.gz\n\t}\n")
 		}
 		b.WriteString("}\n")
+	}
+	if !otherFirst {
+		b.WriteString(other)
 	}
 	text := b.String()
 	n := fx.AddRaw("/Casketfile", tok, []byte(text))
@@ -495,7 +513,7 @@ func runVariant(c *lib.Ctx, variant string) {
 	var err error
 	cfPath := filepath.Join(fx.Root, "Casketfile")
 	for attempt := 0; attempt < 6; attempt++ { // other processes on this machine may grab a port in between
-		ports := lib.FreePorts(6)
+		ports := lib.FreePorts(7)
 		sites = nil
 		i := 0
 		for _, pre := range []string{"", "/pre"} {
@@ -504,7 +522,7 @@ func runVariant(c *lib.Ctx, variant string) {
 				i++
 			}
 		}
-		casketfile(fx, sites)
+		casketfile(fx, sites, ports[6], variant == "notopindex")
 		if sut, err = StartSUT(c, cfPath, fmt.Sprintf("127.0.0.1:%d", ports[0])); err == nil {
 			break
 		}
